@@ -6,6 +6,12 @@
    a select may find both branches ready the property allows either outcome:
    such cases have c_exact = false and the observation must equal the model's
    outcome for one of the two choices; in exact cases it must equal both.
+   The schedule (c_sched) of a case is ASSERTED by the harness from the way it
+   staged the scenario, not observed: exact scenarios are those whose outcome is
+   the same for every timing, so any consistent schedule will do.  What the
+   harness does observe on the way (a partner goroutine parked on the channel,
+   read off runtime.Stack; len(ch)) is recorded as SExpect actions, which the
+   model run must agree with.
    Definitions only. *)
 From Typ Require Export Lib.Base Lib.Chan Chans.Helpers.
 
@@ -17,7 +23,9 @@ Inductive sact :=
 | SSend (v : Z)   (* a partner goroutine sends v *)
 | SRecv           (* a partner goroutine receives *)
 | SClose          (* a partner closes the channel *)
-| SDone.          (* the timer fires / the context is cancelled *)
+| SDone           (* the timer fires / the context is cancelled *)
+| SExpect (nbuf nsend nrecv : Z). (* the harness OBSERVED at this point: nbuf values buffered (len(ch)), nsend partner
+                                     goroutines parked in a send, nrecv parked in a receive (read off runtime.Stack) *)
 
 Inductive ores :=
 | OBool (b : bool) | ORecv (v : Z) (ok : bool) | OList (l : list Z) | OFull (n : Z) (buf : list Z)
@@ -57,6 +65,24 @@ Definition interp (choice : bool) (a : sact) : list (action Z) :=
   | SRecv => [AEnv ERecv]
   | SClose => [AEnv EClose]
   | SDone => [AEnv EDone]
+  | SExpect _ _ _ => []
+  end.
+
+Definition expect_ok (w : world Z) (a : sact) : bool :=
+  match a with
+  | SExpect nb ns nr =>
+      (Z.of_nat (length (buf (ch w))) =? nb)%Z && (Z.of_nat (length (sendq (ch w))) =? ns)%Z &&
+      (Z.of_nat (recvq (ch w)) =? nr)%Z
+  | _ => true
+  end.
+
+(* run the scenario action by action; the flag says whether every observation made on the way agreed *)
+Fixpoint run_sched (choice : bool) (sched : list sact) (st : world Z * pc Z) (ok : bool) : world Z * pc Z * bool :=
+  match sched with
+  | [] => (st, ok)
+  | a :: rest =>
+      let st' := run 0%Z (interp choice a) st in
+      run_sched choice rest st' (ok && expect_ok (fst st') a)
   end.
 
 Definition world0 (c : case) : world Z :=
@@ -84,13 +110,15 @@ Definition ores_eqb (a b : ores) : bool :=
   end.
 
 (* The model's outcome of the scenario when every two-way select takes [choice]. *)
-Definition run_case (choice : bool) (c : case) : world Z * pc Z :=
-  run 0%Z (flat_map (interp choice) (c_sched c)) (world0 c, entry c).
+Definition run_case (choice : bool) (c : case) : world Z * pc Z * bool :=
+  run_sched choice (c_sched c) (world0 c, entry c) true.
 
 (* Every partner goroutine has completed (the harness joins them all), so none
    may be left parked in the model either. *)
-Definition agrees (c : case) (st : world Z * pc Z) : bool :=
+Definition agrees (c : case) (r : world Z * pc Z * bool) : bool :=
+  let st := fst r in
   let w := fst st in
+  snd r &&
   ores_eqb (ores_of (snd st)) (c_res c)
   && list_eqb Z.eqb (buf (ch w)) (c_left c)
   && Bool.eqb (closed (ch w)) (c_closed_after c)
